@@ -251,6 +251,19 @@ def generate(rng, tier):
         for _ in range(rng.choice([1, 2])):
             ops.append({"t": round(t_stream0 + rng.random() * (t_end_stream - t_stream0), 6), "op": "stall", "h": "V",
                         "dur": rng.choice([0.01, 0.1, 0.45, 1.0])})
+    if rng.random() < 0.3:
+        # a lookup on the victim that is still waiting when the records it is after arrive - the honest peer registers
+        # the service a moment after the lookup started - and a stall of the victim that spans both their arrival and one
+        # of the lookup's own deadlines (+200, +600, +1400 ms): both are ready in the iteration the process comes back
+        tl = round(t_stream0 + rng.random() * max(0.5, t_end_stream - t_stream0 - 0.2), 6)
+        late = {"type": VT, "name": "Late._http._tcp.local.", "port": 7070, "server": "honest.local.", "addrs": ["10.0.0.2"],
+                "props": {}}
+        ops.append({"t": tl, "op": "register", "h": "H", "svc": late})
+        ops.append({"t": round(tl - rng.choice([0.05, 0.2]), 6), "op": "lookup", "h": "V", "type": VT,
+                    "name": "Late._http._tcp.local.", "timeout": 3000})
+        ops.append({"t": round(tl + rng.choice([0.3, 0.33, 0.36, 0.5, 0.55]), 6), "op": "stall", "h": "V",
+                    "dur": rng.choice([0.3, 0.5, 0.9])})
+        t_end_stream = max(t_end_stream, tl + 1.8)
     ops.append({"t": round(t_end_stream, 6), "op": "faults_off"})
     tc = t_end_stream + 1.5
     ops.append({"t": round(tc, 6), "op": "send", "p": "C", "src_port": 5355,
